@@ -602,8 +602,11 @@ def results_tree(impl):
 
 
 def c02_check_tree(case, impl):
-    """columns as observed; for the network variant the rows are read back from the graph in callback order
-    (only when no vertex pair repeats, otherwise None: networkx keeps one attribute set per pair)"""
+    """columns as observed; for the network variant the rows are read back from the graph in callback order.
+    networkx keeps ONE attribute set per vertex pair, so a pair the callbacks produced more than once cannot be read
+    back: those pairs are left out -- of the callback results and of the rows alike -- and the verified block checker
+    judges the rest (every pair produced exactly once must carry its topology's name and its motif's private id;
+    C01_network_variant: 'a pair produced once carries its row's name and id')."""
     tag = case["tag"]
     if tag == NETWORK:
         def edges_of_shape(sh):
@@ -612,25 +615,36 @@ def c02_check_tree(case, impl):
             if sh and sh[0] == 1:
                 return [[sh[1], sh[2]]]           # a bare edge (u, v): one row (the fast generator re-packs it)
             return []
-        pairs = []
-        for j, sh in impl["results"]:
-            pairs += [norm_pair(e) for e in edges_of_shape(sh)]
-        if len(set(pairs)) != len(pairs):
-            return None
+        per_call = [(j, edges_of_shape(sh)) for j, sh in impl["results"]]
+        cnt = {}
+        for _, es in per_call:
+            for e in es:
+                cnt[norm_pair(e)] = cnt.get(norm_pair(e), 0) + 1
         attr = {(u, v): (nm, i) for u, v, nm, i in impl["net_edges"]}
-        if set(attr) != set(pairs):
+        if set(attr) != set(cnt):
             ce = [0] * (len(attr) + 1)      # edge set differs from the callbacks' edges: not a column of pairs
             return clamp([0, case["names"], results_tree(impl), ce, [0] * len(ce), [0] * len(ce)])
-        ce, cn, ci = [], [], []
-        for j, sh in impl["results"]:
-            for e in edges_of_shape(sh):
+        ce, cn, ci, res = [], [], [], []
+        for j, es in per_call:
+            keep = [e for e in es if cnt[norm_pair(e)] == 1]
+            res.append([j, [0, keep]])
+            for e in keep:
                 nm, i = attr[norm_pair(e)]
                 ce.append(list(e))
                 cn.append(nm)
                 ci.append(i if isinstance(i, int) and i >= 0 else BAD)
-        return clamp([0, case["names"], results_tree(impl), ce, cn, ci])
+        return clamp([0, case["names"], res, ce, cn, ci])
     ids = [i if isinstance(i, int) and i >= 0 else BAD for i in impl["ids"]]
     return [tag] + clamp([case["names"], results_tree(impl)]) + [clamp(impl["edges"], neg=-1)] + clamp([impl["names"], ids])
+
+
+def results_check_tree(case, impl):
+    """input of c01_check_results: builder codes, the logged calls and the logged results (None when a callback
+    raised or returned something that is no edge sequence: nothing to compare with the specification)"""
+    if any(sh is None or sh[0] == 2 for _, sh in impl["results"]):
+        return None
+    calls = [[j, [v if isinstance(v, int) and v >= 0 else BAD for v in args]] for j, args in impl["calls"]]
+    return clamp([case["codes"], calls, results_tree(impl)])
 
 
 def config_total(case):
@@ -722,6 +736,45 @@ def history_case(rng, tag):
     c["rows"] = rng.choice(["tuple", "list"])
     c["decoy"] = rng.random() < 0.5
     return c
+
+
+LIBRARY_CODES = (CLIQUE, CYCLE, DIAMOND)
+
+
+def repeat_tuple_case(rng, tag):
+    """the library's own builders called again and again with EQUAL ordered vertex tuples (lesson 28): as many
+    vertices as the motif size, every vertex of the same degree in every topology, shuffle answers that deal the same
+    ordered tuple to every group -- of one topology, of several topologies with different builders (a diamond and a
+    4-cycle on the same four vertices), and, as a history, of a second generation on the same object.  A builder
+    that remembers anything about an argument tuple it has seen (memoised result handed out by reference and
+    extended by a caller) answers differently the second time."""
+    s_ = rng.choice([2, 3, 4, 4, 4, 4, 5])
+    T = rng.randint(1, 3)
+    lib = [CLIQUE, CYCLE] + ([DIAMOND, DIAMOND] if s_ == 4 else [])
+    codes = [rng.choice(lib) for _ in range(T)]
+    if s_ == 4 and DIAMOND not in codes:
+        codes[rng.randrange(T)] = DIAMOND
+    sizes = [s_] * T
+    deg = [rng.randint(1, 2) for _ in range(T)]
+    jds = [[deg[k] for k in range(T)] for _ in range(s_)]
+    tau = list(range(s_))
+    rng.shuffle(tau)
+    pis = []
+    for k in range(T):
+        t = list(tau)
+        if rng.random() < 0.25:
+            rng.shuffle(t)
+        c = deg[k]
+        pis.append([t[i] * c + j for j in range(c) for i in range(s_)])
+    mis = [[k] for k in range(T)]
+    names = names_for(tag, codes, sizes, mis, rng, base=rng.choice([10, 300]))
+    case = {"tag": tag, "via": rng.choice(VIAS), "jds": jds, "sizes": sizes, "codes": codes, "names": names,
+            "mis": mis if tag == MOTIFS else [], "pis": pis}
+    if rng.random() < 0.5:
+        n = rng.randint(2, 3)
+        case["steps"] = [{"jds": [list(r) for r in jds], "pis": [list(p) for p in pis]} for _ in range(n)]
+        case["rows"] = rng.choice(["tuple", "list"])
+    return case
 
 
 def big_case(rng, tag):
@@ -1112,6 +1165,21 @@ def common_corpus():
                 "pis": []})
     out.append({"tag": FAST, "via": "direct", "jds": [], "sizes": [2], "codes": [CLIQUE], "names": [[1]], "mis": [],
                 "pis": []})
+    # the same ordered vertex tuple handed to the library builders repeatedly: a diamond and a 4-cycle topology on the
+    # same four vertices; two generations on one object (C01-r6-2: a memoised cycle list extended by diamond_motif)
+    out.append({"tag": FAST, "via": "direct", "jds": [[1, 1]] * 4, "sizes": [4, 4], "codes": [DIAMOND, CYCLE],
+                "names": [[1], [2]], "mis": [], "pis": [[2, 0, 1, 3], [2, 0, 1, 3]]})
+    st = {"jds": [[2]] * 4, "pis": [[2, 6, 0, 4, 3, 7, 1, 5]]}
+    out.append({"tag": MOTIFS, "via": "factory", "jds": st["jds"], "sizes": [4], "codes": [DIAMOND],
+                "names": [[40, 41, 42, 43, 44, 45]], "mis": [[0]], "pis": st["pis"], "steps": [dict(st), dict(st)]})
+    # the network variant with a repeated ORDERED pair followed by a multi-edge motif and a topology boundary
+    # (C01-r6-3: only the edge column de-duplicated before the conversion)
+    out.append({"tag": NETWORK, "via": "direct", "jds": [[2, 1], [2, 1], [0, 1], [0, 0]], "sizes": [2, 3],
+                "codes": [CLIQUE, CLIQUE], "names": [[7], [8]], "mis": [], "pis": [[0, 2, 1, 3], [2, 0, 1]]})
+    # the fast generator with a bare-edge callback in front of another topology (C01-r6-1: label / id columns
+    # computed from the length before the re-pack)
+    out.append({"tag": FAST, "via": "main", "jds": [[1, 1], [1, 1], [0, 1]], "sizes": [2, 3], "codes": [BARE, CLIQUE],
+                "names": [[7], [8]], "mis": [], "pis": [[1, 0], [2, 0, 1]]})
     return out
 
 
